@@ -84,6 +84,7 @@ theorem evalVT_eq (hs : ∀ (dt : DType) (x : ℚ), (upOutDtype dt).store x = x)
     congr 1
     funext v
     exact projectUpTO_eq hs _ v pb.fixed
+  | clip e lo hi ih _ _ => simp only [evalVT, evalV, ih]
   | _ => simp [evalVT, evalV]
 
 theorem wrapperObjectiveT_eq (hs : ∀ (dt : DType) (x : ℚ), (upOutDtype dt).store x = x) (dq : DType) (w : Wrapper) (expF logF : ℚ → ℚ)
@@ -363,5 +364,32 @@ def Wrapper.startOk (w : Wrapper) : Bool := w.start == some (if w.objLog then .l
 /-- the returned vector is the expanded, un-transformed optimiser answer, and the reported value is the optimiser's -/
 def Wrapper.resultOk (w : Wrapper) : Bool :=
   w.result == (if w.objLog then .up (.exp .xopt) else .up .xopt) && w.reportsFopt
+
+/-- a wrapper row around an enumeration of its whole search grid: no start, no bounds anywhere (the grid IS the box), natural
+    parameters, `fixed_params` handed on -/
+def Wrapper.gridOk (w : Wrapper) : Bool :=
+  w.start == none && w.optLower == none && w.optUpper == none && w.objLower == none && w.objUpper == none &&
+  w.objFixed && !w.objLog && !w.negated && w.resultOk
+
+/-- the call of `_object_func` forwards the wrapper's own options by NAME: `sig` = parameters of `_object_func` after `params`,
+    `req` = those without a default -/
+def ObjCall.forwardsOk (sig req : List String) (c : ObjCall) : Bool :=
+  -- only parameters `_object_func` has, each at most once, the required ones all given
+  c.binding.all (fun pa => sig.contains pa.1) && (c.binding.map (·.1)).eraseDups.length == c.binding.length &&
+  req.all (fun r => c.binding.any (·.1 == r)) &&
+  -- an own option that `_object_func` also has is never handed to a parameter of ANOTHER name …
+  c.binding.all (fun pa => !(c.own.contains pa.2 && sig.contains pa.2) || pa.1 == pa.2) &&
+  -- … and is handed to the parameter of its own name (the two bound lists may be withheld — `None` or left at the default `None` —
+  -- when the wrapper gives them to its optimiser instead)
+  c.own.all (fun o => !(sig.contains o) || c.binding.contains (o, o) ||
+    ((o == "lower_bound" || o == "upper_bound") && (c.binding.contains (o, "None") || !(c.binding.any (·.1 == o)))))
+
+/-- what the model row uses of the call is what the binding says, looked up by parameter name -/
+def rowMatchesCall (w : Wrapper) (c : ObjCall) : Bool :=
+  w.name == c.wrapper &&
+  w.objFixed == c.binding.contains ("fixed_params", "fixed_params") &&
+  w.objLlScale == c.binding.contains ("ll_scale", "ll_scale") &&
+  (w.objLower.isSome == (c.binding.contains ("lower_bound", "lower_bound") || c.binding.contains ("lower_bound", "upper_bound"))) &&
+  (w.objUpper.isSome == (c.binding.contains ("upper_bound", "upper_bound") || c.binding.contains ("upper_bound", "lower_bound")))
 
 end DadiVerif.Optim
